@@ -136,7 +136,7 @@ def frag_tokens(m) -> str:
     toks = [str(m.n_atoms)] + [atom_tok(a) for a in m.atoms] + [str(m.n_bonds)]
     for b in m.bonds:
         toks += [str(idx[id(b.a1)]), str(idx[id(b.a2)]), bond_tok(b)]
-    toks += [str(int(m.charge)), str(int(m.mult))]
+    toks += [str(int(getattr(m, "charge", 0) or 0)), str(int(getattr(m, "mult", 1) or 1))]   # a Substructure view has neither
     return " ".join(toks)
 
 
@@ -180,7 +180,7 @@ def snapshot(m):
     return (
         tuple((id(a), a.element.name, a.label, a.atype.name, a.isotope, a.formal_charge, a.formal_spin) for a in m.atoms),
         tuple((id(b.a1), id(b.a2), b.btype.name, b.stereo.name, float(b.f_order)) for b in m.bonds),
-        np.array(m.coords).tobytes(), m.charge, m.mult, m.name,
+        np.array(m.coords).tobytes(), getattr(m, "charge", None), getattr(m, "mult", None), getattr(m, "name", None),
     )
 
 
@@ -236,12 +236,67 @@ def detect_variants(ml, combine_mod):
     return out
 
 
+OPERANDS = ["plain", "plain", "plain", "parent-taken-live", "parent-taken-dead", "view"]
+
+
+def make_operand(ml, rng, fj, kind):
+    """The fragment `fj` as an operand of join.  Whatever the kind, the operand lists the atoms, bonds and coordinates of `fj`
+    in `fj`'s own order — the property (and the model) speak about nothing else.
+      plain              a freshly built Molecule
+      parent-taken-live  … whose atom objects were afterwards also listed, in another order and without copying, by another
+                         Promolecule / Molecule that is still alive (the atoms now name THAT object as their parent)
+      parent-taken-dead  … by another container that has been dropped again (the atoms name no parent)
+      view               a Substructure of a bigger structure: a permuted, non-leading subset of its atoms
+    returns (operand, things to keep alive, other structures whose state must not change)"""
+    import gc
+    if kind != "view":
+        m = build(ml, fj)
+        keep = []
+        if kind.startswith("parent-taken"):
+            order = rng.shuffle(list(m.atoms))
+            if order == list(m.atoms) and len(order) > 1:
+                order = order[1:] + order[:1]
+            thief = ml.Promolecule(order) if rng.chance(1, 2) else ml.Molecule(order, name="thief")
+            if kind.endswith("live"):
+                keep.append(thief)
+            else:
+                del thief
+                gc.collect()
+        return m, keep, []
+    extra = gen_fragment(rng, "Vx", nmin=2, nmax=5)
+    nf, ne = len(fj["labels"]), len(extra["labels"])
+    order = rng.shuffle([("f", i) for i in range(nf)] + [("e", i) for i in range(ne)])     # new position -> (source, old index)
+    if order[0][0] == "f" and ("f", 0) == order[0]:
+        order = order[1:] + order[:1]                                                     # the view is not a leading, in-order slice
+    pos = {k: i for i, k in enumerate(order)}
+    src = {"f": fj, "e": extra}
+    shift = {"f": [0.0, 0.0, 0.0], "e": [25.0, 0.0, 0.0]}
+    bigj = {
+        "name": "host",
+        "elements": [src[k]["elements"][i] for k, i in order],
+        "labels": [src[k]["labels"][i] for k, i in order],
+        "ap": [pos[("f", i)] for i in fj["ap"]] + [pos[("e", i)] for i in extra["ap"]],
+        "coords": [[c + d for c, d in zip(src[k]["coords"][i], shift[k])] for k, i in order],
+        "edges": [[pos[("f", a)], pos[("f", b)], t] for a, b, t in fj["edges"]] + [[pos[("e", a)], pos[("e", b)], t] for a, b, t in extra["edges"]],
+        "charge": 0, "mult": 1,
+    }
+    host = build(ml, bigj)
+    view = host.substructure([pos[("f", i)] for i in range(nf)])
+    return view, [host], [host]
+
+
 # ------------------------------------------------------------------------------------------
 # one join case
 # ------------------------------------------------------------------------------------------
 def join_case(ctx, B, ml, fa, fb, args, variants, sample=False):
     rng = ctx.rng
-    A, Bm = build(ml, fa), build(ml, fb)
+    opA, opB = args.get("operandA", "plain"), args.get("operandB", "plain")
+    A, keepA_, hostsA = make_operand(ml, rng, fa, opA)
+    Bm, keepB_, hostsB = make_operand(ml, rng, fb, opB)
+    hosts = hostsA + hostsB
+    snapH = [snapshot(h) for h in hosts]
+    ctx.count(f"join.operandA={opA}")
+    ctx.count(f"join.operandB={opB}")
     i1, i2 = fa["ap"][0], fb["ap"][0]
     n1, n2 = neighbour_of(fa, i1), neighbour_of(fb, i2)
     nA, nB = A.n_atoms, Bm.n_atoms
@@ -280,8 +335,9 @@ def join_case(ctx, B, ml, fa, fb, args, variants, sample=False):
         big = gen_fragment(rng, "Hbx", nmin=nrem + 1, nmax=nrem + 6)
         small = gen_fragment(rng, "Hsx", nmin=1, nmax=max(1, nrem - 2))
         try:
+            okw = {"charge": 0, "mult": 1} if "view" in (opA, opB) else {}
             for other in (big, small) if rng.chance(1, 2) else (small, big):
-                ml.Molecule.join(A, build(ml, other), i1, other["ap"][0], optimize_rotation=True)
+                ml.Molecule.join(A, build(ml, other), i1, other["ap"][0], optimize_rotation=True, **okw)
             np.random.seed(seed1)
             res3 = ml.Molecule.join(A, Bm, i1, i2, **kw)
             if not np.array_equal(coords, np.array(res3.coords), equal_nan=True):
@@ -295,8 +351,8 @@ def join_case(ctx, B, ml, fa, fb, args, variants, sample=False):
             ctx.violation("C12:join-raises", f"join raised {type(e).__name__}: {e} when repeated after unrelated joins", tag)
         FRESH.append({"A": fa, "B": fb, "args": args, "seed": None, "hex": None})
     # ---------- sources untouched ----------
-    if snapshot(A) != snapA or snapshot(Bm) != snapB:
-        ctx.violation("C12:join-mutates-source", "A or B changed during join", tag)
+    if snapshot(A) != snapA or snapshot(Bm) != snapB or [snapshot(h) for h in hosts] != snapH:
+        ctx.violation("C12:join-mutates-source", "A or B (or the structure an operand is a view of) changed during join", tag)
     # ---------- combinatorics: model-free ----------
     nodes, edges = label_graph(res)
     expn = {}
@@ -431,9 +487,18 @@ def import_combine():
     return cb
 
 
-def run_assemble(ml, cb, core_j, aps, subs_j):
+def run_assemble(ml, cb, core_j, aps, subs_j, taken=None):
     core = build(ml, core_j)
     subs = [build(ml, s) for s in subs_j]
+    keep = []
+    if taken is not None:
+        # the atom objects of the core / of substituents are also listed (re-ordered, not copied) by other containers
+        for m in [core] + subs:
+            if taken.chance(1, 2):
+                order = list(reversed(m.atoms))
+                keep.append(ml.Promolecule(order) if taken.chance(1, 2) else ml.Molecule(order, name="listing"))
+                if taken.chance(1, 3):
+                    keep.pop()
     try:
         call = cb._ml_assemble(core, tuple(aps), [tuple(subs)], hadd=False, obopt=None, separator="_")
         results = call[0](*call[1], **call[2]) if isinstance(call, tuple) else call
@@ -459,7 +524,7 @@ def expected_product_graph(core_j, aps, subs_j):
 
 def combine_case(ctx, B, ml, cb, core_j, aps, subs_j, variants, sample=False):
     tag = {"op": "combine", "core": core_j, "aps": aps, "subs": subs_j}
-    res = run_assemble(ml, cb, core_j, aps, subs_j)
+    res = run_assemble(ml, cb, core_j, aps, subs_j, taken=(ctx.rng if ctx.rng.chance(1, 2) else None))
     asc = all(a < b for a, b in zip(aps, aps[1:]))
     ctx.count("combine.aps-" + ("ascending" if asc else "unsorted"))
     ctx.count(f"combine.n_aps={len(aps)}")
@@ -754,7 +819,18 @@ def gen_args(rng, pose):
         "opt": rng.chance(1, 2),
         "charge": rng.choice([None, None, 0, 1, -2]),
         "mult": rng.choice([None, None, 1, 2, 3, 0]),
+        "operandA": "plain",
+        "operandB": "plain",
     }
+
+
+def with_operands(rng, args):
+    """operand kinds for A and B; a Substructure view has no charge / multiplicity of its own, so both are then given explicitly"""
+    args["operandA"], args["operandB"] = rng.choice(OPERANDS), rng.choice(OPERANDS)
+    if "view" in (args["operandA"], args["operandB"]):
+        args["charge"] = rng.choice([0, 0, 1, -2])
+        args["mult"] = rng.choice([1, 2, 3])
+    return args
 
 
 def corpus_cases():
@@ -771,7 +847,8 @@ def run(ctx):
     ctx.rule = ("join: pairs of random 3-D fragments (1–7 atoms + attachment point, tree or one ring, atom order permuted so the attachment "
                 "point sits at any index, attached to any atom, bond types Single/Double/Aromatic/Triple, charge −2…2, mult 1…3) in random poses "
                 "on a 1/8 Å grid; requested length ∈ {None, 0.75, 1, 1.5, 2.25, 3}; optimize_rotation on/off; charge override ∈ {None, 0, 1, −2}; "
-                "mult override ∈ {None, 0, 1, 2, 3}; attachment vectors in general position, exactly parallel, exactly antiparallel (also with A's vector exactly along each of ±x, ±y, ±z) and tilted off those by 1e-2…1e-7 rad; every call "
+                "mult override ∈ {None, 0, 1, 2, 3}; attachment vectors in general position, exactly parallel, exactly antiparallel (also with A's vector exactly along each of ±x, ±y, ±z) and tilted off those by 1e-2…1e-7 rad; operands: freshly built molecules, molecules whose atom objects were also listed (re-ordered, uncopied) by another live or dropped "
+                "Promolecule/Molecule, Substructure views (permuted, non-leading subsets of a bigger structure) as A and as B; every call "
                 "made twice under different global numpy RNG states; every optimize_rotation join repeated after unrelated joins of a larger and a smaller "
                 "fragment, and compared bit-wise with the same join in fresh interpreters (reversed order; alone). combine: cores with 1–3 attachment points, attachment indices in ascending "
                 "order (as `core.attachment_points`) and in every other order (as with `-a` labels), through the real `_ml_assemble`; the whole command `molli_main` on core libraries of 2–3 cores with "
@@ -801,7 +878,7 @@ def run(ctx):
             combine_case(ctx, B, ml, cb, r["core"], r["aps"], r["subs"], variants)
             ctx.count("corpus.combine")
     q = ctx.quick()
-    njoin = 250 if q else 15000
+    njoin = 250 if q else 9000
     for i in range(njoin):
         ctx.check_deadline()
         pose = rng.weighted([("general", 6), ("parallel", 2), ("antiparallel", 2), ("near-parallel", 2), ("near-antiparallel", 2),
@@ -823,12 +900,12 @@ def run(ctx):
             v1 = [fa["coords"][i1][k] - fa["coords"][n1][k] for k in range(3)]
             eps = rng.choice([1e-2, 1e-3, 3e-4, 1e-4, 1e-5, 1e-6, 1e-7]) if pose.startswith("near") else 0.0
             fb = gen_fragment(rng, f"B{i}x", parallel_to=(v1, -1 if pose.endswith("antiparallel") else 1, eps))
-        join_case(ctx, B, ml, fa, fb, gen_args(rng, pose), variants, sample=(i < 2))
+        join_case(ctx, B, ml, fa, fb, with_operands(rng, gen_args(rng, pose)), variants, sample=(i < 2))
         if len(B.items) > 400:
             B.run(ctx)
     B.run(ctx)
     fresh_process_check(ctx, ml, 40 if q else 600)
-    ncomb = 100 if q else 6000
+    ncomb = 100 if q else 3500
     for i in range(ncomb):
         ctx.check_deadline()
         k = rng.range(1, 3)
@@ -845,7 +922,7 @@ def run(ctx):
     # the whole command on libraries: every mode × every way of naming the attachment points
     forms = ["none", "shared-label", "labels-any-order"]
     modes = ["permutns", "same", "combns", "combns_repl"]
-    nmain = 12 if q else 240
+    nmain = 12 if q else 160
     for i in range(nmain):
         ctx.check_deadline()
         main_case(ctx, B, ml, cb, variants, modes[i % 4], forms[(i // 4) % 3], i, sample=(i < 1))
